@@ -207,10 +207,10 @@ inductive TxEffect (s s' : St) (tx : TxIn) (o : TxOut) : Prop where
       (hold : holdings s' + (wmul o.gasUsed s.active.gasPrice : Nat) = holdings s + dW)
       (wd : s'.ghost.withdrawn = s.ghost.withdrawn + dW)
 
-theorem handleTx_ok {s s' : St} {ht : Int} {tx : TxIn} {o : TxOut} (h : handleTx s true ht tx = (s', o))
+theorem handleTxOld_ok {s s' : St} {ht : Int} {tx : TxIn} {o : TxOut} (h : handleTxOld s true ht tx = (s', o))
     (hi : Inv0 s) (hb : holdings s < ((two63 * amountPerPower : Nat) : Int)) (hf : UnstakeFresh s tx) :
     Inv0 s' ∧ Frame s s' ∧ (FrozenSync s → FrozenSync s') ∧ TxEffect s s' tx o := by
-  unfold handleTx at h
+  unfold handleTxOld at h
   simp only [if_true] at h
   split at h
   · injection h with e1 e2; subst e1; subst e2
@@ -269,6 +269,16 @@ theorem handleTx_ok {s s' : St} {ht : Int} {tx : TxIn} {o : TxOut} (h : handleTx
       rw [hg, ← f0.active, ← hprice, ← h1]
       have : wmul tx.gas tx.price = wmul tx.price tx.gas := by unfold wmul; rw [Nat.mul_comm]
       rw [this]; exact hold
+
+theorem handleTx_ok {s s' : St} {ht : Int} {tx : TxIn} {o : TxOut} (h : handleTx s true ht tx = (s', o))
+    (hi : Inv0 s) (hb : holdings s < ((two63 * amountPerPower : Nat) : Int)) (hf : UnstakeFresh s tx) :
+    Inv0 s' ∧ Frame s s' ∧ (FrozenSync s → FrozenSync s') ∧ TxEffect s s' tx o := by
+  by_cases hl : byteLen tx.to = 20
+  · rw [handleTx_goodlen hl] at h; exact handleTxOld_ok h hi hb hf
+  · obtain ⟨k, e⟩ := handleTx_badlen (s := s) (exec := true) (h := ht) hl
+    rw [e] at h
+    injection h with e1 e2; subst e1; subst e2
+    exact ⟨hi, frame_refl s, fun h => h, .failed (by simp) rfl rfl⟩
 
 /-! ### DeliverTx -/
 
